@@ -38,7 +38,7 @@ EXTRA = ["phy_bus", "phy_r04", "phy_r0A", "phy_other", "phy_writes", "spec_act",
 
 
 def gen_cases(tier, rng):
-    n_utmi, n_dec = {"quick": (110, 40), "widen": (400, 150)}.get(tier, (800, 300))
+    n_utmi, n_dec = {"quick": (110, 40), "widen": (400, 150)}.get(tier, (400, 150))
     out = []
     for k in range(n_utmi):
         out.append({"kind": "utmi", "seed": rng.u64(), "k": k})
